@@ -44,6 +44,39 @@ def retry_specs(tier):
     return out
 
 
+def thread_part(pid, tier, seed, workers, only):
+    """Failure paths of the sync pool under real threads (pre-emption bounded, mc/props/c08.py), judged by this property's oracle only:
+    C05 - no request still counted after all threads returned; C06 - no stream open after pool.close()."""
+    import multiprocessing as mp
+    import os
+    from .c08 import S
+    quick = tier == "quick"
+    P = dict(prefix=pid)
+    scs = [
+        # idle connections expire while a connect is failing slowly; the failure path's retiring pass races another thread's pass
+        (S("h11", ["req:a:w", "req:b:w", "fail:x:t6", "tick:6", "req:c"], max_connections=4, keepalive_expiry=5.0, granularity="pool-line", **P), 1 if quick else 2),
+        (S("h11", ["req:a:w", "req:b:w", "fail:x:t6", "tick:6", "req:c"], max_connections=4, keepalive_expiry=5.0, granularity="sync", **P), 2 if quick else 3),
+        # a refused connect leaves through the failure path while another request is queued and a third arrives
+        (S("h11", ["fail:x:g1", "req:a", "req:b"], max_connections=1, granularity="pool-line", **P), 1 if quick else 2),
+        (S("h11", ["fail:x:g1", "req:a", "req:b"], max_connections=1, granularity="sync", **P), 2),
+    ]
+    if not quick:
+        scs.append((S("h11", ["req:a:w", "req:b:w", "fail:x:t6", "tick:6", "req:c"], max_connections=4, keepalive_expiry=5.0, granularity="line", **P), 1))
+    if only:
+        scs = [x for x in scs if only in x[0][1] + x[0][2]]
+    total = engine.Stats(bound=None)
+    per = []
+    if not scs:
+        return total, {}
+    with mp.get_context("fork").Pool(workers or min(16, os.cpu_count() or 1)) as pool:
+        for spec, bound in scs:
+            st = engine.explore(spec, bound=bound, merge=False, pool=pool, seed=seed, max_violations=100,
+                                max_execs=150000 if quick else 1000000, max_seconds=40 if quick else 240, recheck=1)
+            per.append({"scenario": spec[2][:170], "preemption_bound": bound, "executions": st.evaluations, "complete": not st.caps, "caps": st.caps})
+            total.merge_from(st)
+    return total, {"world": "real threads, baton scheduler, every schedule with at most `preemption_bound` pre-emptions (stateless)", "scenarios": per}
+
+
 def check(tier="quick", seed=0, workers=None, only=None, pid=PID, prefixes=PREFIXES):
     specs = common.filt(seq_specs(tier), only)
     st = engine.explore_many(specs, workers=workers, bound=1, seed=seed, max_violations=400)
@@ -62,6 +95,8 @@ def check(tier="quick", seed=0, workers=None, only=None, pid=PID, prefixes=PREFI
     from . import backends
     bst, binfo = backends.run_for(tier, seed, workers, only)
     viols = common.collect(st, prefixes) + common.collect(cst, prefixes) + common.collect(rst, prefixes) + common.collect(bst, prefixes)
+    tst, tinfo = thread_part(pid, tier, seed, workers, only)
+    viols += common.collect(tst, prefixes)
     pinfo = {}
     if pid == "C06" and not only:
         # malformed / truncated peer input of every protocol stage: the stream must still be closed by pool.close() at the latest
@@ -73,6 +108,7 @@ def check(tier="quick", seed=0, workers=None, only=None, pid=PID, prefixes=PREFI
     total.merge_from(cst)
     total.merge_from(rst)
     total.merge_from(bst)
+    total.merge_from(tst)
     total.samples = st.samples[:3] + cst.samples[:4]
     cov = evidence.stats_coverage(
         total,
@@ -81,7 +117,7 @@ def check(tier="quick", seed=0, workers=None, only=None, pid=PID, prefixes=PREFI
               "(retries=N, N+1 faults: every way of failing N attempts at the TCP/TLS stage and then failing anywhere in the next); concurrent part: see "
               "'concurrent' key; non-trivial = outcome class (victim result, pool repr, probe result, fault@op) of an execution with an injected fault or a cancellation"),
         extra={"sequential": {"scenarios": len(specs), "executions": st.evaluations, "states": st.states},
-               "concurrent": cinfo, "trio_world": rinfo, "real_backends": binfo, "peer_input_corpus": pinfo, "other_oracles_seen": common.foreign(st, prefixes)})
+               "concurrent": cinfo, "trio_world": rinfo, "real_backends": binfo, "sync_pool_under_threads": tinfo, "peer_input_corpus": pinfo, "other_oracles_seen": common.foreign(st, prefixes)})
     return {"level": "fault_enumeration", "coverage": cov, "violations": viols,
             "assumptions": ["faults are the documented backend exceptions; a failed write delivers none of its bytes; a hard read/write error means the peer is gone",
                             "start_tls closes the transport when it fails with an Exception, as all three real backends do; not on cancellation"]}
